@@ -634,6 +634,19 @@ def check_token(kind):
                             detail=lambda: f"token bytes {t!r}, expected {exp[1]}", scenario=sc)
             elif exp[0] == "error":
                 V.check(ex, "malformed escapes and invalid code points are rejected", got[0] == "error", assumed, detail=lambda: f"got {got[0]} {got[1:]} for {s}", scenario=sc)
+            # C18: a syntax error points inside the source or immediately at the end of one of its lines
+            if got[0] == "error" and isinstance(got[1], VStruct) and got[1].fields and isinstance(got[1].fields[0], VStruct):
+                TPM = __import__("t_parse")
+                TPM.learn_loc_layout(ex)
+                el = got[1].fields[0]
+                L, Cc = el.fields[TPM.LOC_IDX["line"]].bv, el.fields[TPM.LOC_IDX["col"]].bv
+                line, col = z3.BitVecVal(0, 64), z3.BitVecVal(0, 64)
+                for ch in s:
+                    nl = ch == C("\n")
+                    line, col = z3.If(nl, line + 1, line), z3.If(nl, z3.BitVecVal(0, 64), col + 1)
+                inside = z3.And(z3.ULE(L, line), z3.Implies(L == line, z3.ULE(Cc, col)), z3.ULE(Cc, len(s)))
+                V.check(ex, "a syntax error reports a position inside the source or at the end of one of its lines", inside, assumed,
+                        detail=lambda: f"error at {el!r} for {len(s)} characters", scenario=sc)
             # C18: the token's span is the whole input, on line 0
             if got[0] not in ("error", "none", "?") and exp[0] != "error":
                 loc = got[2]
